@@ -249,6 +249,30 @@ func genSvcCase(r *kit.Rand, size int) []string {
 		}
 	}
 	hn := 0
+	// branch-directed prelude: in half of the cases start with a chain source -> p.. of depth up to 3 (the generic
+	// loop below rarely builds chains deeper than one hop), so that the chain semantics is exercised at depth >= 2:
+	// match at every hop on the event AS SEEN there, previous level carried over on a first arrival.
+	if r.Chance(1, 2) {
+		cur := svcTopics[r.Intn(2)]
+		for _, nxt := range svcTopics[2:] {
+			if !r.Chance(3, 4) {
+				continue
+			}
+			hid := fmt.Sprintf("h%d", hn)
+			hn++
+			midx := r.Intn(len(matchTable))
+			if r.Chance(1, 3) {
+				midx = 0
+			}
+			incoming[nxt] = true
+			live = append(live, sp{cur, hid, []string{nxt}})
+			ops = append(ops, fmt.Sprintf("sreg %s %s %d %s", cur, hid, midx, nxt))
+			cur = nxt
+		}
+		if r.Chance(2, 3) {
+			ops = append(ops, fmt.Sprintf("srec %s r%d", cur, r.Intn(2)))
+		}
+	}
 	for i := 0; i < size; i++ {
 		switch k := r.Intn(100); {
 		case k < 55:
